@@ -430,9 +430,19 @@ class Env:
         self.open = _open
 
         osp = types.SimpleNamespace(**{k: getattr(real_os.path, k) for k in ("join", "basename", "dirname", "splitext", "normpath", "sep")})
-        osp.isfile = lambda p: fs.is_file(p)
-        osp.isdir = lambda p: fs.is_dir(p)
-        osp.exists = lambda p: fs.exists(p)
+        def _swallow(f):
+            # os.path.isfile/isdir/exists answer False on *any* OSError (unlike pathlib, which re-raises most)
+            def g(p):
+                try:
+                    fs._tick(f, p)
+                except OSError:
+                    return False
+                q = _norm(p)
+                return {"is_file": q in fs.files, "is_dir": q in fs.dirs, "exists": q in fs.files or q in fs.dirs}[f]
+            return g
+        osp.isfile = _swallow("is_file")
+        osp.isdir = _swallow("is_dir")
+        osp.exists = _swallow("exists")
 
         def makedirs(p, mode=0o777, exist_ok=False):
             fs._tick("makedirs", p)
